@@ -23,7 +23,7 @@ struct C17 : Prop {
 	// A, B, A, B with a quiescent read after each (RA, RB and a check that they are reproducible); then A and B alternate densely on
 	// the time grid while reader tasks call the entity's getter and bidib_get_state. A query result is a copy of ONE state of the
 	// entity: every concurrent result must equal RA or RB (a mix of both, or a copy of memory the receiver released meanwhile, is not).
-	struct Hot { std::string fn, key, idv; J a, b; bool ok = false, no_arg = false; };
+	struct Hot { std::string fn, key, idv; J a, b, a2; bool ok = false, no_arg = false, with_reset = false, has_a2 = false; };
 	static J ev(const std::vector<uint8_t> &addr, int type, J data) { J e = J::obj(); e.set("node", pc::jaddr(addr)); e.set("type", type); e.set("data", data); return e; }
 	static Hot pick_hot(Rng &r, const cfg::World &w) {
 		std::vector<Hot> c;
@@ -55,6 +55,10 @@ struct C17 : Prop {
 			h.a = J::obj(); h.a.set("topo", "lost"); h.a.set("node", pc::jaddr(b.addr)); h.b = J::obj(); h.b.set("topo", "new"); h.b.set("node", pc::jaddr(b.addr)); c.push_back(h); c.push_back(h); }
 		if (to) for (auto &t : w.trains) { Hot h; h.fn = "train_state"; h.key = "trains"; h.idv = t.id;
 			h.a = ev(to->addr, MSG_CS_DRIVE_MANUAL, pc::jarr({t.addrl, t.addrh, 3, 0x1F, 0x85, 0x1F, 0xFF, 0xFF, 0xFF})); h.b = ev(to->addr, MSG_CS_DRIVE_MANUAL, pc::jarr({t.addrl, t.addrh, 3, 0x1F, 0x02, 0, 0, 0, 0})); c.push_back(h); }
+		// where a train is, while the APPLICATION resets the system (the reset empties the segment lists from the calling thread, not from the receiver)
+		for (auto &b : w.boards) if (b.present && !b.segs.empty() && !w.trains.empty()) { const cfg::Train &t = w.trains[r.below(w.trains.size())]; Hot h; h.fn = "train_position"; h.key = ""; h.idv = t.id; h.with_reset = true;
+			J da = pc::jarr({b.segs[0].addr, t.addrl, (int) (t.addrh & 0x3F)});
+			h.a = ev(b.addr, MSG_BM_ADDRESS, da); h.b = ev(b.addr, MSG_BM_ADDRESS, pc::jarr({b.segs[0].addr, 0, 0})); for (int q = 0; q < 4; q++) c.push_back(h); break; }
 		if (c.empty()) return Hot();
 		Hot h = c[r.below(c.size())]; h.ok = true; return h;
 	}
@@ -77,7 +81,17 @@ struct C17 : Prop {
 			J ops = J::arr(); ops.push(getr(k == 0 ? "cal0" : k == 1 ? "calA" : k == 2 ? "calB" : k == 3 ? "calA2" : "calB2")); J tasks = J::arr(); tasks.push(ops); ph.set("tasks", tasks); quiesce(ph); phs.push(ph);
 		}
 		int grid = 5000, maxt = 1;
-		for (int rep = 0, nrep = (int) r.range(1, thorough ? 4 : 2); rep < nrep; rep++) {
+		if (h.with_reset) {
+			// the train is listed; one task resets the system (the library empties its segment lists 1.5 s into the call) while two readers ask for the train's
+			// position three times at every grid instant for 1.7 s
+			J ph = J::obj(); J evs = J::arr(); { J e = h.a; e.set("at_us", 0); evs.push(e); } ph.set("bus", evs);
+			J tasks = J::arr();
+			{ J ops = J::arr(); J s1 = J::obj(); s1.set("op", "sleep"); s1.set("us", 2 * grid); ops.push(s1); J ro = J::obj(); ro.set("op", "reset"); ops.push(ro); tasks.push(ops); }
+			for (int q = 0; q < 2; q++) { J ops = J::arr(); J s1 = J::obj(); s1.set("op", "sleep"); s1.set("us", 2 * grid); ops.push(s1);
+				J rep = J::obj(); rep.set("op", "repeat"); rep.set("n", 1020); rep.set("sleep_every", 3); rep.set("sleep_us", grid); rep.set("body", getr("hot")); ops.push(rep); tasks.push(ops); }
+			ph.set("tasks", tasks); maxt = 3; quiesce(ph); phs.push(ph);
+		}
+		for (int rep = 0, nrep = h.with_reset ? 0 : (int) r.range(1, thorough ? 4 : 2); rep < nrep; rep++) {
 			J ph = J::obj(); J evs = J::arr();
 			int n = (int) r.range(4, thorough ? 40 : 20), gap = (r.chance(600) ? 1 : (int) r.range(2, 3)) * grid, t = 0;
 			for (int i = 0; i < n; i++) { J e = (i & 1) ? h.b : h.a; t += gap; e.set("at_us", t); evs.push(e); }
@@ -98,7 +112,8 @@ struct C17 : Prop {
 		se.set("phases", phs);
 		J ss = J::arr(); ss.push(se); plan.set("sessions", ss);
 		J sc = sched_json(r, tier, maxt + 1, true);
-		sc.set("fn_yield", (int) r.range(20, 250)); sc.set("grid_us", grid); sc.set("jitter_us", 0);
+		sc.set("fn_yield", h.with_reset ? (int) r.range(150, 300) : (int) r.range(20, 250)); sc.set("grid_us", grid); sc.set("jitter_us", 0);
+		if (h.with_reset) { sc.set("policy", (int) sim::P_RANDOM); sc.set("max_steps", 40000000); }
 		plan.set("sched", sc);
 		return plan;
 	}
